@@ -24,7 +24,7 @@ m = dict(
     hooks=dict(guard="EXO_VERIF", enable="no source hooks: contracts are sidecar files under /verif/contracts keyed by file::qualname; "
                "the checks re-read /repo's working tree on every run (VERIF_REPO overrides the root for scratch copies)",
                baseline_off_cmd=BASE, source_commits=[], add_only=True),
-    engines=ENGINES,
+    engines=[dict(e, serves_properties=sorted(CLAIMS)) for e in ENGINES],
     checks=checks,
     notes="Contract-based deductive verification with a self-built VC generator (pyvc) over the real Python source; see DESIGN.md. "
           "Exit codes: 0 held, 1 violation, 2 undecided, 3 checker error.",
